@@ -49,10 +49,10 @@ def run(d, allprops):
         return name,meta,('CAUGHT' if own[1]=='caught' else 'MISSED' if own[1]=='silent' else 'ERROR'),'',res
     finally:
         shutil.rmtree(t,ignore_errors=True)
-ap=argparse.ArgumentParser(); ap.add_argument('-k',default=''); ap.add_argument('-j',type=int,default=4); ap.add_argument('--all-props',action='store_true'); ap.add_argument('--benign',action='store_true',help='run the behaviour-preserving corpus /verif/benign: every check must stay silent'); ap.add_argument('--json',default='',help='write per-change results (status, rules that fired) to this file')
+ap=argparse.ArgumentParser(); ap.add_argument('-k',default=''); ap.add_argument('-j',type=int,default=4); ap.add_argument('--all-props',action='store_true'); ap.add_argument('--benign',action='store_true',help='run the behaviour-preserving corpus /verif/benign: every check must stay silent'); ap.add_argument('--dir',default='',help='corpus directory under /verif (default: seeded, or benign with --benign)'); ap.add_argument('--json',default='',help='write per-change results (status, rules that fired) to this file')
 a=ap.parse_args()
 BENIGN=a.benign
-dirs=sorted(d for d in glob.glob('/verif/benign/*' if a.benign else '/verif/seeded/*') if os.path.exists(os.path.join(d,'patch.diff')) and re.search(a.k, d))
+dirs=sorted(d for d in glob.glob('/verif/%s/*'%(a.dir or ('benign' if a.benign else 'seeded'))) if os.path.exists(os.path.join(d,'patch.diff')) and re.search(a.k, d))
 missed=0
 JS=[]
 with concurrent.futures.ThreadPoolExecutor(a.j) as ex:
